@@ -53,6 +53,26 @@ def long_shape(shape, n):
     return pts
 
 
+def kind_pts(pts, vk):
+    import numpy as np
+    if vk == 'npfloat':
+        return [(np.float64(x), np.float64(y)) for x, y in pts]
+    if vk == 'int':
+        return [(int(round(x)), int(round(y))) for x, y in pts]
+    return pts
+
+
+def edit_in_place(tr, pts):
+    """what a caller may do between two simplifications of the same Track object: move a third of the fixes sideways (same number of fixes)"""
+    out = list(pts)
+    for i in range(len(pts) // 3, 2 * len(pts) // 3):
+        x, y = pts[i][0] + 0.5, pts[i][1] + 40.0 + (i % 3)
+        tr.getObs(i).position.setX(x)
+        tr.getObs(i).position.setY(y)
+        out[i] = (x, y)
+    return out
+
+
 def stamps(track):
     return [int(track.getObs(i).timestamp.toAbsTime()) // 10 for i in range(track.size())]
 
@@ -100,6 +120,13 @@ class C16(Check):
                     js.append(dict(kind='long', shape=shape, n=n, mode=2, lo=0.001, hi=0.01))
             if not q:
                 js.append(dict(kind='long', shape=shape, n=70, mode=2, lo=2, hi=3))
+        # value-kind probes (coordinates held as numpy scalars / Python ints) and leftover-state probes (the same Track simplified, edited in place, simplified again)
+        for shape in ('loop', 'dups', 'outback'):
+            for vk in ('npfloat', 'int'):
+                js.append(dict(kind='long', shape=shape, n=40, mode=1, lo=0.5, hi=2.0, vk=vk))
+                js.append(dict(kind='long', shape=shape, n=40, mode=2, lo=0.001, hi=0.01, vk=vk))
+            for mode, lo, hi in ((1, 4, 6), (2, 0.001, 0.01)):
+                js.append(dict(kind='long', shape=shape, n=70, mode=mode, lo=lo, hi=hi, again=True))
         js.sort(key=lambda j: -(j.get('n', 0)))
         return js
 
@@ -233,10 +260,13 @@ class C16(Check):
                 return
             if kind == 'long':
                 n = job['n']
-                pts = long_shape(job['shape'], n)
+                pts = kind_pts(long_shape(job['shape'], n), job.get('vk'))
                 eps = eng.real('eps', job['lo'], job['hi'])
                 tr = make_track(pts)
                 obs = [tr.getObs(i) for i in range(n)]
+                if job.get('again'):
+                    self._run_simplify(tr, eps, job['mode'])
+                    pts = edit_in_place(tr, pts)
                 res = self._run_simplify(tr, eps, job['mode'])
                 ctx.reach()
                 st = stamps(res)
@@ -350,9 +380,13 @@ class C16(Check):
                 return dict(violation=None, outputs=out)
             if kind == 'long':
                 n = job['n']
-                pts = long_shape(job['shape'], n)
+                pts = kind_pts(long_shape(job['shape'], n), job.get('vk'))
                 eps = float(inp['eps'])
-                res = self._run_simplify(make_track(pts), eps, job['mode'])
+                tr = make_track(pts)
+                if job.get('again'):
+                    self._run_simplify(tr, eps, job['mode'])
+                    pts = edit_in_place(tr, pts)
+                res = self._run_simplify(tr, eps, job['mode'])
                 st = stamps(res)
                 out = dict(size=len(st))
                 name = 'Douglas-Peucker' if job['mode'] == 1 else 'Visvalingam'
